@@ -597,6 +597,8 @@ pub struct BuildOut {
     /// the SAME builder is used for the calls that follow
     pub recover: bool,
     pub errs: Vec<(usize, String)>,
+    /// the pool is attached to the OUTERMOST builder only (the natural use of add_pool); otherwise to the builder of every level
+    pub pool_outer_only: bool,
 }
 
 fn debug_text(b: &DispatcherBuilder<'static, 'static>) -> String {
@@ -692,7 +694,7 @@ fn build_level(
             }
             Reg::Batch { tag, name, deps, time, count, ctl, inner, .. } => {
                 #[cfg(feature = "parallel")]
-                let ib = build_level(inner, *tag, rec, out, pool)?;
+                let ib = build_level(inner, *tag, rec, out, if out.pool_outer_only { None } else { pool })?;
                 #[cfg(not(feature = "parallel"))]
                 let ib = build_level(inner, *tag, rec, out)?;
                 let res = catch_unwind(AssertUnwindSafe(|| {
@@ -718,6 +720,8 @@ pub fn build(
     build_mode(regs, rec, #[cfg(feature = "parallel")] pool, false)
 }
 
+thread_local! { pub static POOL_OUTER_ONLY: std::cell::Cell<bool> = std::cell::Cell::new(false); }
+
 pub fn build_mode(
     regs: &[Reg], rec: &Arc<Recorder>,
     #[cfg(feature = "parallel")] pool: Option<&Arc<rayon::ThreadPool>>,
@@ -726,7 +730,7 @@ pub fn build_mode(
     let mut out = BuildOut {
         builder: None, calls: 0, err: None, prints: Vec::new(),
         handles: Handles { runs: HashMap::new(), states: HashMap::new() },
-        recover, errs: Vec::new(),
+        recover, errs: Vec::new(), pool_outer_only: POOL_OUTER_ONLY.with(|c| c.get()),
     };
     #[cfg(feature = "parallel")]
     let b = build_level(regs, 0, rec, &mut out, pool);
